@@ -208,7 +208,7 @@ cpdef bint is_icao_assigned(str icao):
 @cython.wraparound(False)
 cpdef int typecode(str msg):
     """Type code of ADS-B message"""
-    if df(msg) not in (17, 18):
+    if df(msg) not in (17, 18) or len(msg) != 28:
         return -1
         # return None
 
